@@ -109,6 +109,8 @@ pub struct ConnMon {
     pub closed: bool,
     /// a disconnect() future was dropped on this connection after it had started writing
     pub disc_cancelled: bool,
+    /// the client has read a complete DISCONNECT from the broker on this connection
+    pub peer_disconnect_consumed: bool,
 }
 
 #[derive(Clone, Debug, Hash, PartialEq, Eq)]
@@ -1089,6 +1091,9 @@ impl Oracle {
                     // still be sent (the broker retransmits and tolerates both); a fresh session
                     // voids them (cleared above).
                 }
+            }
+            SPacket::Disconnect { .. } => {
+                self.conns[c].peer_disconnect_consumed = true;
             }
             SPacket::Ack { kind, pid, reason, .. } => match kind {
                 AckKind::PubAck => {
